@@ -3055,7 +3055,10 @@ sexp sexp_read_number (sexp ctx, sexp in, int base, int exactp) {
 #if SEXP_USE_COMPLEX
     if (sexp_complexp(den)) {
       res = sexp_make_fixnum(negativep ? -val : val);
-      if (sexp_complex_real(den) == SEXP_ZERO) {
+      if ((sexp_complex_real(den) == SEXP_ZERO)
+          && !sexp_exact_integerp(sexp_complex_imag(den))) {
+        res = sexp_read_error(ctx, "invalid rational syntax", den, in);
+      } else if (sexp_complex_real(den) == SEXP_ZERO) {
         res = sexp_make_ratio(ctx, res, sexp_complex_imag(den));
         res = sexp_ratio_normalize(ctx, res, in);
         sexp_complex_imag(den) = res;
